@@ -300,6 +300,99 @@ def _o_psbt_partial_sign(w):
     return True, f"{sigs} signature in {w['ops']}"
 
 
+# ------------------------------------------------------------------- every spelling of the caller-held nonce
+SPELLINGS = {"buf": "buf", "view": "view", "bytes": "frozen", "roview": "frozen", "hex": "text"}   # -> model kind
+
+
+@functools.lru_cache(maxsize=None)
+def _psbt_b():
+    """a second, different session on the same keys and public nonces: another transaction version, another sighash."""
+    b = copy.deepcopy(_psbt_session()[0])
+    b.tx_version = 3 if b.tx_version != 3 else 2
+    return b
+
+
+def _spell(spelling, nonce0: bytes):
+    return {"buf": lambda: bytearray(nonce0), "view": lambda: memoryview(bytearray(nonce0)), "bytes": lambda: bytes(nonce0),
+            "roview": lambda: memoryview(bytes(nonce0)), "hex": lambda: nonce0.hex()}[spelling]()
+
+
+def _held(obj) -> bytes:
+    return bytes.fromhex(obj) if isinstance(obj, str) else bytes(obj)
+
+
+def _psbt_ctx(label):
+    psbt = {"psbtx": _psbt_session()[0], "psbtxB": _psbt_b()}[label]
+    return psbt_musig2.session_context(psbt, 0, _AGG_PK, leaf_hash=b"").context
+
+
+def _psbt_q_op(kind, k, which="psbt"):
+    """`Q,…`: partial_sign on psbt A (`psbt`) or the different session B (`psbtB`)."""
+    if which == "psbt":
+        return "Q" + _psbt_sign_op(kind, k)[1:]
+    prv = {"right": PSBT_KEYS[k], "other": PSBT_KEYS[(k + 1) % 3]}[kind]
+    return "Q" + _sign_op_ctx(lambda: _psbt_ctx("psbtxB"), prv, "psbtB")[1:]
+
+
+def _noncek_run(spelling, nonce0: bytes, ops: list[str]) -> list[str]:
+    """one caller-held object, in the given spelling, through `musig2.sign` (S) and `psbt.musig2.partial_sign` (Q)."""
+    obj = _spell(spelling, nonce0)
+    psbts = {}
+    out = []
+    for op in ops:
+        t = op.split(",")
+        try:
+            if t[0] == "P":
+                r = "bytes:" + common.hx(_held(obj))
+            elif t[0] == "Q":
+                which = "psbtB" if t[11] == "psbtB" else "psbt"
+                if which not in psbts:
+                    psbts[which] = copy.deepcopy(_psbt_session()[0] if which == "psbt" else _psbt_b())
+                r = "sig:" + common.hx(psbt_musig2.partial_sign(psbts[which], 0, obj, int(t[8]), _PSBT_AGG.get(t[11], _AGG_PK)))
+            elif t[11].startswith("psbtx"):
+                r = "sig:" + common.hx(musig2.sign(obj, int(t[8]), _psbt_ctx(t[11])))
+            else:
+                r = "sig:" + common.hx(musig2.sign(obj, int(t[8]), _fresh_ctx(int(t[11]))))
+        except Exception as e:  # noqa: BLE001
+            r = "err:" + _cls(e)
+        out.append(r + "@" + common.hx(_held(obj)))
+    return out
+
+
+def _o_nonce_spellings(w):
+    """What the library promises per spelling, and exactly that: from one caller-held object at most one signature is
+    ever obtained, through either entry point and across different sessions; a mutable one is zeroed by the attempt
+    that signs; an immutable one ("an immutable secnonce is one nothing can spend") yields none and is unchanged."""
+    spelling, k = w["spelling"], w["k"]
+    nonce0 = _psbt_session()[1][k] if w["pool"] == "psbt" else _nonce0(w["sid"], k, "real")
+    obj = _spell(spelling, nonce0)
+    psbts = {"psbt": copy.deepcopy(_psbt_session()[0]), "psbtB": copy.deepcopy(_psbt_b())}
+    sigs = []
+    for level, target in w["attempts"]:
+        try:
+            if level == "psbt":
+                s = psbt_musig2.partial_sign(psbts[target], 0, obj, PSBT_KEYS[k], _AGG_PK)
+            elif w["pool"] == "psbt":
+                s = musig2.sign(obj, PSBT_KEYS[k], _psbt_ctx({"psbt": "psbtx", "psbtB": "psbtxB"}[target]))
+            else:
+                s = musig2.sign(obj, _prv(w["sid"], k, "right"), _fresh_ctx(target))
+        except Exception:  # noqa: BLE001 - which class an unusable spelling raises is C19's question, not this one
+            s = None
+        if s is not None:
+            sigs.append((level, target, s.hex()[:16]))
+            if SPELLINGS[spelling] in ("frozen", "text"):
+                return False, f"a signature came out of a nonce held as {spelling} ({level} {target}); the object cannot have been spent"
+            if any(_held(obj)[:64]):
+                return False, f"{level} {target} signed with a nonce held as {spelling} and left it readable"
+        if len(sigs) > 1:
+            return False, f"two signatures from one caller-held nonce ({spelling}): {sigs}"
+    if SPELLINGS[spelling] in ("frozen", "text") and _held(obj) != nonce0:
+        return False, f"an immutable {spelling} changed"
+    if SPELLINGS[spelling] in ("buf", "view") and len(sigs) != 1:
+        return False, f"a fresh nonce held as {spelling} gave {len(sigs)} signatures over {w['attempts']}"
+    return True, f"{spelling}: {len(sigs)} signature over {len(w['attempts'])} attempts"
+
+
 def _fmt(recs):
     return "ok " + (";".join(recs) if recs else "_")
 
@@ -709,6 +802,8 @@ def impl(line: str) -> str:
     ops = [] if t[-1] == "_" else t[-1].split(";")
     if t[0] == "nonce":
         return _fmt(_nonce_run(common.unhx(t[1]), ops))
+    if t[0] == "noncek":
+        return _fmt(_noncek_run(t[1], common.unhx(t[2]), ops))
     if t[0] == "signer":
         return _fmt(_signer_run(t[1], t[2] == "1", ops))
     if t[0] == "soft":
@@ -1312,9 +1407,112 @@ def _o_threads(w):
     return not bad, (bad[0] if bad else f"{nthreads} threads x {len(pool)} calls agree with the sequential answers")
 
 
+# =============================================================================== threads: COLD START (a search)
+def _purge_lazy():
+    """put every lazily initialised piece of state back to "never used" (what a fresh interpreter has)."""
+    from btclib.mnemonic import electrum as el  # noqa: PLC0415
+    from btclib.mnemonic import mnemonic as mn  # noqa: PLC0415
+    _clear_all()
+    _CTX_SHARED.clear()
+    for wl in (mn.WORDLISTS, el.ELECTRUM_WORDLISTS):
+        for lang in list(wl.languages):
+            wl._language_length[lang] = 0  # noqa: SLF001
+            wl._wordlist[lang] = []  # noqa: SLF001
+            wl._index[lang] = {}  # noqa: SLF001
+    for f in (el._old_wordlist, el._old_word_indexes):  # noqa: SLF001
+        f.cache_clear()
+
+
+def _cold_pool(seed):
+    """first uses of the lazy entry points: each thread makes the same calls, all for the first time at once."""
+    from btclib.mnemonic import mnemonic as mn  # noqa: PLC0415
+    rng = random.Random(seed)
+    langs = rng.sample(["en", "it", "es", "fr", "ja", "cs", "pt", "ko", "zh-cn", "zh-tw"], 3)
+    pool = []
+    for lang in langs:
+        if lang not in mn.WORDLISTS.languages:
+            continue
+        ent = _h("cold", seed, lang)[:16].hex()
+        pool.append(["lookup", lang, ent])           # word -> index on a language nobody has loaded yet
+        pool.append(["mnemonic", lang, ent])
+    pool.append(["derive", _XPRV, f"m/{rng.randrange(50)}h/1"])
+    pool.append(["derive", _ACC, f"m/0/{rng.randrange(50)}"])
+    pool.append(["prepared", "secp256k1", rng.getrandbits(200), 4000 + seed % 7])     # a new point's tables
+    pool.append(["mult", "secp256k1", rng.getrandbits(255), None])                     # the generator's tables
+    pool.append(["double_mult", "secp160r1", rng.getrandbits(150), 1, rng.getrandbits(150), 5000 + seed % 5])
+    pool.append(["session_values", rng.randrange(3)])                                  # SessionContext._values, shared ctx
+    pool.append(["psig_verify", rng.choice([0, 1, 7]), 0, False])                      # _bindings_ctx, shared ctx
+    pool.append(["second_generator", "secp160r1"])
+    return pool
+
+
+def _eval_cold(d):
+    if d[0] == "lookup":
+        words = bip39.mnemonic_from_entropy(bytes.fromhex(d[2]), d[1]).split()
+        from btclib.mnemonic import mnemonic as mn  # noqa: PLC0415
+        return [mn.WORDLISTS.index(wd, d[1]) for wd in words] + list(mn.indexes_from_mnemonic(" ".join(words), d[1]))
+    if d[0] == "session_values":
+        v = musig2.session_values(_ctx(d[1], fresh=False))
+        return [list(v.Q), v.gacc, v.tacc, v.b, list(v.R), v.e]
+    return _eval(d)
+
+
+def _cold_start_child(cfg):
+    """runs in a fresh interpreter: `reps` rounds; in each, the lazy state is purged and N threads, released by a
+    barrier, all make the pool's calls for the first time; answers against the sequential ones."""
+    seed, reps, nthreads = cfg["seed"], cfg["reps"], cfg["threads"]
+    bad = []
+    old = sys.getswitchinterval()
+    for rep in range(reps):
+        pool = _cold_pool(seed * 1000 + rep)
+        if INSTALLED:
+            set_serving(serving=(rep % 3 != 2))       # a third of the rounds build the Python arm's tables
+        ref = [json.loads(json.dumps(_eval_cold(d))) for d in pool]      # sequential (this also warms; purged next)
+        _purge_lazy()
+        start = threading.Barrier(nthreads)
+
+        def worker(tid, pool=pool, ref=ref, rep=rep, start=start):
+            order = list(range(len(pool)))
+            if tid % 2:                                # half the threads walk the pool the other way round
+                order.reverse()
+            start.wait()
+            for k in order:
+                try:
+                    got = json.loads(json.dumps(_eval_cold(pool[k])))
+                except Exception as e:  # noqa: BLE001
+                    bad.append(f"round {rep} thread {tid}: {pool[k][:2]} raised {type(e).__name__}: {str(e)[:80]}")
+                    continue
+                if got != ref[k]:
+                    bad.append(f"round {rep} thread {tid}: {pool[k][:2]} answered {str(got)[:50]} vs sequential {str(ref[k])[:50]}")
+
+        sys.setswitchinterval(1e-6)
+        try:
+            ts = [threading.Thread(target=worker, args=(i,)) for i in range(nthreads)]
+            for t in ts:
+                t.start()
+            for t in ts:
+                t.join()
+        finally:
+            sys.setswitchinterval(old)
+        if len(bad) > 5:
+            break
+    return {"bad": bad[:6], "reps": reps}
+
+
+def _o_cold_start(w):
+    """a SEARCH over schedules (not a proof): a fresh interpreter, first uses made concurrently."""
+    p = subprocess.run([sys.executable, "-m", "harness.c20", "--coldstart"], input=json.dumps(w).encode(),
+                       stdout=subprocess.PIPE, stderr=subprocess.PIPE, cwd=common.ROOT, timeout=1800)
+    if p.returncode != 0:
+        raise common.HarnessError("cold-start subprocess failed: " + p.stderr.decode()[-400:])
+    r = json.loads(p.stdout.decode().strip().split("\n")[-1])
+    return not r["bad"], (r["bad"][0] if r["bad"] else f"{r['reps']} rounds x {w['threads']} threads: every first use agrees")
+
+
 ORACLES = {
     "nonce.single_use": _o_nonce_single_use,
     "nonce.psbt_partial_sign": _o_psbt_partial_sign,
+    "nonce.spellings": _o_nonce_spellings,
     "signer.wiped_dead": _o_signer_dead,
     "softsigner.closed_never_signs": _o_soft_closed,
     "wallet.invariant": _o_wallet_invariant,
@@ -1324,6 +1522,7 @@ ORACLES = {
     "cache.vs_uncached": _o_vs_uncached,
     "curve.identity": _o_curve_identity,
     "threads.search": _o_threads,
+    "threads.cold_start": _o_cold_start,
 }
 
 
@@ -1402,6 +1601,39 @@ def _run(ctx, rng, thorough):
     for _ in range(ctx.n(40, 600)):
         ctx.check("nonce.psbt_partial_sign", {"k": rng.randrange(3), "ops": [rng.choice(["right", "right", "other", "stranger", "noagg"])
                                                                              for _ in range(rng.randrange(1, 7))]})
+    # every spelling of the caller-held nonce through both entry points, different sessions included
+    sdepth = 5 if thorough else 3
+    cases = []
+    for spelling in SPELLINGS:
+        k = rng.randrange(3)
+        alpha = [_psbt_q_op("right", k), _psbt_q_op("right", k, "psbtB"), _psbt_q_op("other", k),
+                 _sign_op_ctx(lambda: _psbt_ctx("psbtx"), PSBT_KEYS[k], "psbtx"),
+                 _sign_op_ctx(lambda: _psbt_ctx("psbtxB"), PSBT_KEYS[k], "psbtxB"), _psbt_q_op("stranger", k), "P"]
+        n0 = _psbt_session()[1][k]
+        for ops in _all_histories(alpha, sdepth):
+            cases.append((f"noncek {spelling} {common.hx(n0)} {';'.join(ops)}", _fmt(_noncek_run(spelling, n0, ops))))
+        # the ecc pool too: two sessions on the same keys (0 and 6), short and long buffers
+        for sid0, other in ((0, 6), (1, 7)):
+            for variant in ("real", "short", "long", "spent"):
+                n1 = _nonce0(sid0, 0, variant)
+                for ops in _all_histories([_sign_op(sid0, _prv(sid0, 0, "right")), _sign_op(other, _prv(sid0, 0, "right")),
+                                           _sign_op(3, _prv(sid0, 0, "right"))], 3):
+                    cases.append((f"noncek {spelling} {common.hx(n1)} {';'.join(ops)}", _fmt(_noncek_run(spelling, n1, ops))))
+    ctx.correspond("nonce.spellings.all", EXE, cases, nontrivial=lambda ln, o: "sig:" in o)
+    ctx.exhaustive_streams.append(f"nonce.spellings.all: for each of {list(SPELLINGS)}, every history of length {sdepth} over "
+                                  "partial_sign (session A, different session B, other key, stranger), musig2.sign (A, B), peek")
+    for spelling in SPELLINGS:
+        for _ in range(ctx.n(6, 60)):
+            pool = rng.choice(["psbt", "ecc"])
+            if pool == "psbt":
+                att = [[rng.choice(["psbt", "ecc"]), rng.choice(["psbt", "psbtB"])] for _ in range(rng.randrange(2, 6))]
+                wit = {"spelling": spelling, "pool": "psbt", "k": rng.randrange(3), "attempts": att}
+            else:
+                sid0 = rng.choice([0, 1])
+                att = [["ecc", rng.choice([sid0, sid0 + 6])] for _ in range(rng.randrange(2, 6))]
+                wit = {"spelling": spelling, "pool": "ecc", "sid": sid0, "k": rng.randrange(2), "attempts": att}
+            ctx.check("nonce.spellings", wit)
+            ctx.count("nonce.spellings", spelling)
     for _ in range(ctx.n(150, 2000)):
         sid0, j = rng.randrange(N_SESSIONS), rng.randrange(3)
         ops = [[sid0 if rng.random() < 0.7 else rng.randrange(N_SESSIONS), rng.choice(kinds)]
@@ -1608,11 +1840,17 @@ def _run(ctx, rng, thorough):
     # ---------------------------------------------------------------- threads: a search, not a proof
     for k in range(ctx.n(2, 40)):
         ctx.check("threads.search", {"seed": ctx.seed * 1000 + k, "threads": 8, "flips": True})
+    for k in range(ctx.n(2, 12)):
+        ctx.check("threads.cold_start", {"seed": ctx.seed * 100 + k, "reps": 25 if not thorough else 120, "threads": 8})
     _lap(ctx, "threads")
-    ctx.note("threads.search is a SEARCH over real CPython schedules (8 threads, switch interval 1e-6 s), not a proof")
+    ctx.note("threads.search and threads.cold_start are SEARCHES over real CPython schedules (8 threads, switch interval "
+             "1e-6 s; warm caches with concurrent clears and backend flips, and first uses from purged lazy state in fresh "
+             "interpreters), not proofs")
 
 
 if __name__ == "__main__":
     if "--cold" in sys.argv:
         ds = json.loads(sys.stdin.read())
         print(json.dumps([json.loads(json.dumps(_eval(d))) for d in ds]))
+    elif "--coldstart" in sys.argv:
+        print(json.dumps(_cold_start_child(json.loads(sys.stdin.read()))))
